@@ -27,6 +27,7 @@ ASSUMPTIONS = ["x is read as an abstract declarator applied to T as if T were a 
                "gcc probe: objects larger than 4096 bytes and incomplete types are declared 'extern' "
                "(acceptance of the declaration is still checked; sizeof only for complete types)"]
 NSUF = 8
+SAN_DECIDES = False     # see judge(): only reports in the name-building path decide
 
 
 def generate(ctx):
@@ -66,7 +67,7 @@ def child_setup(setup, wd):
 PRIM_ARGS = ['int', 'char', 'double', 'unsigned long', 'float', 'short', 'long long', '_Bool',
              'signed char', 'char *', 'void *', 'int * *', 'double *']
 FIXED = ['*', '**', '[N]', '[]', '(*)(args)', '*[N]', '(*)[N]', '(*)', '(**)', '(*[N])(args)',
-         '[N][N]', '**[N]', '(*(*)(args))[N]', '*(*)(args)', '(*)[]', '((*))', '(*(*))(args)']
+         '[N][N]', '**[N]', '(*(*)(args))[N]', '*(*)(args)', '(*)[]', '(*(*))(args)']
 
 
 def gen_args(rnd, pool):
@@ -86,8 +87,8 @@ def gen_decl(rnd, pool, depth=0, need=False):
     core = ''
     if depth < 2 and rnd.random() < (0.45 if depth == 0 else 0.25):
         core = '(' + sp() + gen_decl(rnd, pool, depth + 1, True) + sp() + ')'
-    if need and not nptr and not core:
-        nptr = 1
+    if need and not nptr and (not core or rnd.random() < 0.9):
+        nptr = 1        # '((' directly nested grouping parentheses: rare (see child_case)
     arr = lambda: '[' + sp() + rnd.choice(['', '0', '1', '2', '3', '7', '10', '64', '255']) + sp() + ']'
     fn = lambda: '(' + gen_args(rnd, pool) + ')'
     r = rnd.random()
@@ -97,6 +98,8 @@ def gen_decl(rnd, pool, depth=0, need=False):
         sufs = [fn()]
     else:
         sufs = [arr() for _ in range(rnd.choice([0, 0, 1, 1, 2]))]
+    if not nptr and not core and not sufs:
+        nptr = 1
     return sp().join(['*'] * nptr + ([core] if core else []) + sufs)
 
 
@@ -319,6 +322,11 @@ def child_case(st, case):
                     try:
                         got = f.typeof(name)
                     except Exception as e:
+                        if label == 'compiled' and '((' in shape_of(x):
+                            # directly nested grouping parentheses: the C parser does not take
+                            # them anywhere (recorded C07 finding nested-grouping-parens)
+                            rep.stat('nested_grouping_parens_rejected_by_c_parser')
+                            continue
                         rep.bad('reparse-rejected:' + cls, '%s: getctype -> %r, typeof raised '
                                 '%s: %s (expected %r)' % (where, name, type(e).__name__, e,
                                                           expected), det)
@@ -340,7 +348,7 @@ def child_case(st, case):
                         size = f.sizeof(T)
                     except Exception:
                         pass
-                lines.append([ti, label, kd, var, line, size])
+                lines.append([ti, label, kd, var, line, size, s])
                 rep.stat('gcc_declarations')
     res = rep.result()
     res['decls'] = decls
@@ -350,64 +358,110 @@ def child_case(st, case):
 # ---- parent: gcc probe ----------------------------------------------------
 
 DECLS = {}
+NAMEPATH = re.compile(r'getctype|getcname|_combine_type_name|ctypedescr_new_on_top|fb_build_name')
+INTERNAL = re.compile(r'\b_cffi_(float|double)_complex_t\b')
+COMPLEX_TD = ('#define __cdecl\n#define __stdcall\n'
+              'typedef float _Complex _cffi_float_complex_t;\n'
+              'typedef double _Complex _cffi_double_complex_t;\n')
 
 
 def judge(ctx, setup, case, obs):
     core.absorb(ctx, case, obs, lambda d: {'seeds': [d[0]], 'ntypes': case['ntypes'],
                                            'only': d[1]})
+    # sanitizer reports decide only when they are in the name-building path
+    # (module import / parser reports belong to C11 / C30)
+    for kind, frame, block in core.split_reports(obs.get('_san', '')):
+        if NAMEPATH.search(block):
+            ctx.violation('sanitizer-in-name-path:%s@%s' % (kind, frame), block[:1500], case)
     for seed, lines in obs.get('decls', {}).items():
         DECLS.setdefault((int(seed), case['ntypes']), []).extend(lines)
 
 
-def unit(uid, c, lines):
-    decl, st = [c.c_source()], []
-    for ti, label, kd, var, line, size in lines:
-        complete = size is not None
-        decl.append('%s%s;' % ('' if complete and size <= 4096 else 'extern ', line))
-        if complete:
-            st.append('printf("%s %%zu\\n", sizeof(%s));' % (var, var))
-    return (uid, '\n'.join(decl), '\n'.join(st))
+def probe(tmp, prelude, lines):
+    """compile the declarations after `prelude`, run, return (sizes, rejected {k: message});
+    sizes is None when gcc rejects something else than one of the declarations.  Keys
+    3000000+k of rejected: the *source* type string of T is itself not valid C."""
+    rejected = {}
+    for attempt in range(2):
+        src, body = [cc.PRELUDE, prelude], []
+        for k, (ti, label, kd, var, line, size, s) in enumerate(lines):
+            if k in rejected or 3000000 + k in rejected:
+                continue
+            src.append('#line %d\nvoid p_%d(%s);' % (3000000 + k, k, s))
+            src.append('#line %d\n%s%s;' % (1000000 + k, '' if size is not None and size <= 4096
+                                           else 'extern ', line))
+            if size is not None:
+                body.append('#line %d\nprintf("%s %%zu\\n", sizeof(%s));' % (2000000 + k, var, var))
+        src.append('#line 5\nint main(void) {\n%s\n#line 7\nreturn 0; }\n' % '\n'.join(body))
+        exe = os.path.join(tmp, 'c08_%d_%d' % (os.getpid(), next(cc._counter)))
+        rc, msg = cc.compile_c(tmp, '\n'.join(src), exe)
+        if rc == 0:
+            rc, out, err = cc.run_exe(exe)
+            os.unlink(exe)
+            if rc != 0:
+                return None, {'run': err[-500:]}
+            return dict((ln.split()[0], int(ln.split()[1])) for ln in out.splitlines()), rejected
+        for m in re.finditer(r':([123]\d{6}):\d+: error: (.*)', msg):
+            n = int(m.group(1))
+            rejected.setdefault(n if n >= 3000000 else n % 1000000, m.group(2))
+        if attempt or not rejected:
+            return None, {'compile': msg[-1500:]}
+    return None, rejected
 
 
 def finalize(ctx, setup):
+    import concurrent.futures as cf
     todo = sorted(DECLS.items())
     DECLS.clear()
-    ctxs = dict((key, make_ctx(key[0])) for key, lines in todo)
-    res = cc.batch_probe(ctx.tmp, [unit(i, ctxs[key], lines) for i, (key, lines) in
-                                   enumerate(todo)], batch=8)
-    ctx.count('gcc_units', len(todo))
-    for i, (key, lines) in enumerate(todo):
-        seed, ntypes = key
-        r = res.get(i)
-        one = {}
-        if isinstance(r, dict):
-            # the context as a whole failed: one declaration per compilation
-            if isinstance(cc.batch_probe(ctx.tmp, [(0, ctxs[key].c_source(), '')], batch=1)[0], dict):
-                ctx.inconclusive('gcc rejects the context declarations of seed %d' % seed)
-                continue
-            one = cc.batch_probe(ctx.tmp, [(k, ) + unit(k, ctxs[key], [ln])[1:]
-                                           for k, ln in enumerate(lines)], batch=1)
-            sizes = {}
-        else:
-            sizes = dict((ln.split()[0], int(ln.split()[1])) for ln in r)
-        for k, (ti, label, kd, var, line, size) in enumerate(lines):
+    ctx.note('children finished after %.1f s' % ctx.elapsed())
+
+    def work(item):
+        (seed, ntypes), lines = item
+        src = make_ctx(seed).c_source()
+        internal = [ln for ln in lines if INTERNAL.search(ln[4])]
+        return (probe(ctx.tmp, COMPLEX_TD + src, lines),
+                probe(ctx.tmp, '#define __cdecl\n#define __stdcall\n' + src, internal) if internal else None)
+    with cf.ThreadPoolExecutor(8) as ex:
+        results = list(ex.map(work, todo))
+    for ((seed, ntypes), lines), ((sizes, rejected), internal) in zip(todo, results):
+        ctx.count('gcc_probes')
+        if sizes is None:
+            ctx.inconclusive('gcc probe of context %d failed outside the declarations: %s' %
+                             (seed, rejected))
+            continue
+        for k, (ti, label, kd, var, line, size, s) in enumerate(lines):
             rp = {'seeds': [seed], 'ntypes': ntypes, 'only': ti}
-            r1 = one.get(k)
-            if isinstance(r1, dict):
-                ctx.case((seed, var), True)
+            if 3000000 + k in rejected:
+                ctx.count('gcc_skipped_source_string_is_not_valid_c')
+                continue
+            ctx.case((seed, var), True, sample={'declaration': line, 'sizeof': size})
+            if k in rejected:
                 ctx.violation('gcc-rejects-declaration:%s:%s' % (label, kd),
                               '%s FFI: getctype(T, %r) -> %r is rejected by gcc: %s' %
-                              (label, var, line, r1['error'][-400:]), rp)
+                              (label, var, line, rejected[k]), rp)
                 continue
-            if r1 is not None:
-                sizes = dict((ln.split()[0], int(ln.split()[1])) for ln in r1)
-            ctx.case((seed, var), True, sample={'declaration': line, 'sizeof': size})
             ctx.count('gcc_accepted_declarations')
             if size is None:
                 ctx.count('gcc_incomplete_types_declared_extern')
+            else:
+                ctx.count('gcc_sizeof_compared')
+                if sizes.get(var) != size:
+                    ctx.violation('gcc-sizeof-differs:%s:%s' % (label, kd),
+                                  '%s FFI: %r: gcc sizeof %s, ffi.sizeof(T) %s' %
+                                  (label, line, sizes.get(var), size), rp)
+        # names that only cffi's own generated C header declares
+        if internal is not None:
+            sizes2, rej2 = internal
+            ilines = [ln for ln in lines if INTERNAL.search(ln[4])]
+            if sizes2 is None:
+                ctx.inconclusive('gcc probe (internal names) of context %d failed: %s' % (seed, rej2))
                 continue
-            ctx.count('gcc_sizeof_compared')
-            if sizes.get(var) != size:
-                ctx.violation('gcc-sizeof-differs:%s:%s' % (label, kd),
-                              '%s FFI: %r: gcc sizeof %s, ffi.sizeof(T) %s' %
-                              (label, line, sizes.get(var), size), rp)
+            for k, msg in sorted(rej2.items()):
+                if k >= 3000000 or 3000000 + k in rej2 or not INTERNAL.search(msg):
+                    continue
+                ti, label, kd, var, line, size, s = ilines[k]
+                ctx.count('gcc_rejects_cffi_internal_complex_name')
+                ctx.violation('gcc-rejects-declaration:complex-named-by-cffi-internal-typedef',
+                              '%s FFI: getctype(T, %r) -> %r: without the typedefs of cffi\'s own '
+                              '_cffi_include.h gcc says: %s' % (label, var, line, msg),
+                              {'seeds': [seed], 'ntypes': ntypes, 'only': ti})
